@@ -98,3 +98,21 @@ def reset(**overrides: Any) -> None:
     )
     STATE["requests"] = []
     STATE.update(overrides)
+
+
+class FakeClock:
+    """Stand-in for the ``time`` module inside the PKCE module: ``time()`` is whatever the check set."""
+
+    now = 1_900_000_000.0
+
+    @classmethod
+    def time(cls) -> float:
+        return cls.now
+
+
+def install_clock() -> type[FakeClock]:
+    """Freeze the PKCE module's clock (cookie timestamps / expiry become exact, no wall-clock race)."""
+    import vgi_rpc.http._oauth_pkce as pk
+
+    pk.time = FakeClock  # type: ignore[assignment]
+    return FakeClock
